@@ -2,7 +2,10 @@ package harness
 
 import "context"
 
-func init() { Register(&PropDef{ID: "C12", Run: runC12, Race: true}) }
+func init() {
+	Register(&PropDef{ID: "C12", Run: runC12, Race: true})
+	c12Families = append(c12Families, runC07Burst) // the sender's failure path against concurrent writers
+}
 
 // c12Families are the scenario families borrowed by C12: each exercises a group of concurrently usable
 // operations with the framework's own tasks running. Their functional oracles are muted; the race detector
